@@ -207,4 +207,70 @@ theorem buffer_addresses_distinct (data elemsize i j : Nat) (hs : 0 < elemsize) 
 
 example : bufAddr 4096 (2^30) 4 = 4096 + 2^32 := by decide
 
+/-! ### a released cache lives exactly as long as one of its entries is referenced -/
+
+/-- the invariant: an orphaned cache is freed iff no entry is referenced; a cache that was not released is not freed -/
+def LifeInv (l : Life) : Prop := (l.freed = true ↔ (l.orphan = true ∧ l.idle = true))
+
+theorem life_idle_upd (l : Life) (o f : Bool) : ({ l with orphan := o, freed := f } : Life).idle = l.idle := rfl
+
+theorem life_release_inv (l : Life) (hf : l.freed = false) : LifeInv l.release := by
+  unfold LifeInv Life.release
+  by_cases hi : l.idle = true
+  · rw [if_pos hi]; simp only [life_idle_upd, hi, and_self]
+  · rw [if_neg hi]
+    have e : ∀ f, (Life.mk l.refs true f).idle = l.idle := fun _ => rfl
+    simp [hf, e, hi]
+
+theorem life_getD_zero_of_idle (r : List Nat) (i : Nat) (h : r.all (· == 0) = true) : r.getD i 0 = 0 := by
+  rw [List.all_eq_true] at h
+  by_cases hlt : i < r.length
+  · have := h _ (List.getElem_mem hlt)
+    simp only [List.getD_eq_getElem?_getD, List.getElem?_eq_getElem hlt, Option.getD_some]
+    simpa using this
+  · simp only [List.getD_eq_getElem?_getD, List.getElem?_eq_none (by omega : r.length ≤ i), Option.getD_none]
+
+/-- **never freed while a reference is out, freed with the last one**: dropping a reference of an orphaned, not yet
+    freed cache keeps the invariant, whichever entry it is (first or second half of the entry array). -/
+theorem life_drop_inv (l : Life) (i : Nat) (ho : l.orphan = true) (hf : l.freed = false) : LifeInv (l.drop i) := by
+  unfold Life.drop
+  simp only
+  by_cases hz : ((l.refs.modify i (· - 1)).getD i 0 == 0 && l.orphan) = true
+  · rw [if_pos hz]
+    exact life_release_inv _ hf
+  · rw [if_neg hz]
+    unfold LifeInv
+    simp only [hf, ho, Bool.false_eq_true, true_and, false_iff]
+    intro hidle
+    apply hz
+    simp only [ho, Bool.and_true, beq_iff_eq]
+    exact life_getD_zero_of_idle _ i hidle
+
+/-- every history of drops after a release keeps the invariant (as long as the cache exists) -/
+theorem life_history (l : Life) (hf : l.freed = false) (is : List Nat) :
+    ∀ l', (is.foldl (fun (a : Life) i => if a.freed then a else a.drop i) l.release) = l' → LifeInv l' := by
+  have key : ∀ (is : List Nat) (a : Life), a.orphan = true → LifeInv a →
+      LifeInv (is.foldl (fun (a : Life) i => if a.freed then a else a.drop i) a) := by
+    intro is
+    induction is with
+    | nil => intro a _ h; exact h
+    | cons i is ih =>
+      intro a ho hinv
+      simp only [List.foldl_cons]
+      by_cases hfa : a.freed = true
+      · simp only [hfa, if_true]; exact ih a ho hinv
+      · have hfa' : a.freed = false := by simpa using hfa
+        simp only [hfa', Bool.false_eq_true, if_false]
+        have ho' : (a.drop i).orphan = true := by
+          unfold Life.drop Life.release; simp only; split <;> (try split) <;> simp [ho]
+        exact ih _ ho' (life_drop_inv a i ho hfa')
+  intro l' h
+  rw [← h]
+  have ho : l.release.orphan = true := by unfold Life.release; split <;> simp
+  exact key is _ ho (life_release_inv l hf)
+
+example : ({ refs := [0, 0, 1, 0] } : Life).release.freed = false := by decide
+example : (({ refs := [0, 0, 1, 0] } : Life).release.drop 2).freed = true := by decide
+example : ({ refs := [0, 0, 0, 0] } : Life).release.freed = true := by decide
+
 end Kdf.Props.C06
